@@ -116,6 +116,9 @@ type cfg struct {
 	// and with the writer, inside the explored part
 	gate bool
 	hb   bool // happens-before pruning (shared harness state is declared in body)
+	// lateOther: while the script runs, another controller with an input on a kind nobody watched so far is
+	// registered (its new watch delivers a bookmark-only batch into the event pipeline)
+	lateOther bool
 }
 
 // observation of one controller
@@ -283,6 +286,15 @@ func body(c cfg, x *explore.X) {
 	}
 	if c.gate {
 		vrt.Close(gate)
+	}
+	if c.lateOther {
+		vrt.GoNamed("late-registrar", func() {
+			vrt.Yield()
+			late := &px.Probe{NameV: "late", InputsV: []controller.Input{{Namespace: hx.NS, Type: tStr, Kind: controller.InputWeak}}}
+			if err := rt.RegisterController(late); err != nil {
+				panic(err)
+			}
+		})
 	}
 	base := log.Len()
 	for _, op := range c.script {
@@ -481,6 +493,8 @@ func build(tier string) []explore.Scenario {
 	add(cfg{name: "weak-kind/after-run", inputs: []inSpec{{tInt, "", w}}, when: "after-run", pre: pre, script: []wop{"update a", "update a"}, prologue: true, bounds: b0})
 	add(cfg{name: "weak-kind/update-inputs", inputs: []inSpec{{tInt, "", w}}, when: "update-inputs", pre: pre, script: []wop{"update a", "create b"}, prologue: true, bounds: b0})
 	add(cfg{name: "weak-kind/update-inputs/2controllers-concurrent", inputs: []inSpec{{tInt, "", w}}, nCtrl: 2, when: "update-inputs", gate: true, script: []wop{"create b"}, prologue: true, bounds: []int{0, 1}})
+	add(cfg{name: "weak-kind/2updates/late-registration-of-another-kind", inputs: []inSpec{{tInt, "", w}}, lateOther: true, pre: pre, script: []wop{"update a", "update a"}, prologue: true, bounds: b0})
+	add(cfg{name: "q-primary/2updates/late-registration-of-another-kind", q: true, inputs: []inSpec{{tInt, "", qp}}, lateOther: true, pre: pre, script: []wop{"update a", "update a"}, prologue: true, bounds: b0[:len(b0)-1]})
 	add(cfg{name: "weak-kind/shrink-inputs", inputs: []inSpec{{tInt, "", w}}, when: "shrink-inputs", pre: pre, script: []wop{"update a", "create b"}, prologue: true, bounds: b0})
 	add(cfg{name: "weak-kind/startup-race", inputs: []inSpec{{tInt, "", w}}, pre: pre, script: []wop{"update a"}, prologue: false, bounds: b0})
 	add(cfg{name: "weak-kind/startup-race/cached", inputs: []inSpec{{tInt, "", w}}, cached: true, pre: pre, script: []wop{"update a"}, prologue: false, bounds: b0})
